@@ -5,10 +5,12 @@ Used by the failing-input search of harness/c07.py. No model is involved here: t
 """
 from __future__ import annotations
 
+import contextlib
 import os
 import shutil
 import signal
 import tempfile
+import time
 import traceback
 from collections import Counter
 from dataclasses import dataclass, field
@@ -40,6 +42,37 @@ class WallCap(BaseException):
 
 def _on_alarm(signum: int, frame: Any) -> None:
 	raise WallCap()
+
+
+@contextlib.contextmanager
+def budget(cpu_s: float = CAP_S, wall_s: float = WALL_SAFETY_S) -> Any:
+	"""Per-case budget for a real-code call outside Pipeline.run: WallCap (a BaseException) is raised when the call uses more than
+	`cpu_s` of CPU time or `wall_s` of wall time, so a non-terminating case becomes an observation, never a hang of the harness."""
+	old_alarm = signal.signal(signal.SIGALRM, _on_alarm)
+	old_prof = signal.signal(signal.SIGPROF, _on_alarm)
+	signal.setitimer(signal.ITIMER_PROF, cpu_s)
+	signal.setitimer(signal.ITIMER_REAL, wall_s)
+	try:
+		yield
+	finally:
+		signal.setitimer(signal.ITIMER_PROF, 0)
+		signal.setitimer(signal.ITIMER_REAL, 0)
+		signal.signal(signal.SIGALRM, old_alarm)
+		signal.signal(signal.SIGPROF, old_prof)
+
+
+class Deadline:
+	"""Total wall deadline of a stream / search: once over, the remaining cases are skipped and counted (reported in the evidence notes)."""
+
+	def __init__(self, seconds: float) -> None:
+		self.end = time.time() + seconds
+		self.skipped = 0
+
+	def over(self) -> bool:
+		if time.time() > self.end:
+			self.skipped += 1
+			return True
+		return False
 
 
 def py2cpp_definitions() -> dict[str, Any]:
